@@ -290,6 +290,8 @@ impl<E: FieldElement> OpFlags<E> {
             + degree4_op_flags[6] // RESPAN
             + degree4_op_flags[7] // HALT
             + degree4_op_flags[3] // CALL
+            + degree4_op_flags[2] // SYSCALL
+            + degree5_op_flags[8] // DYN
             + degree4_op_flags[4] * binary_not(frame.is_loop_end()); // END
 
         no_shift_flags[1] = no_shift_flags[0] + no_change_1_flag;
